@@ -156,13 +156,31 @@ def entry_dir(i):
 for i, h in enumerate(ages_h):
     for name in os.listdir(entry_dir(i)):
         os.utime(os.path.join(entry_dir(i), name), (now - 3600.0 * h, now - 3600.0 * h))
+if "orphan" in limits:
+    # what a writer killed during its dump (or a result that failed to pickle) leaves: an entry directory with a partial temporary and no
+    # output.pkl - it occupies the store and has to be counted and evicted like every entry
+    i = limits["orphan"]
+    os.unlink(os.path.join(entry_dir(i), "output.pkl"))
+    with open(os.path.join(entry_dir(i), "output.pkl.thread-1-pid-1"), "wb") as fh:
+        fh.write(b"x" * 50000)
+    # (modification time BEFORE the access time: on a relatime mount listing the directory would otherwise refresh its access time)
+    os.utime(entry_dir(i), (now - 3600.0 * ages_h[i], now - 3600.0 * ages_h[i] - 60.0))
 kw = {}
+if limits.get("bytes") is not None:
+    kw["bytes_limit"] = limits["bytes"]
 if limits.get("age_h") is not None:
     kw["age_limit"] = datetime.timedelta(hours=limits["age_h"])
 if limits.get("items") is not None:
     kw["items_limit"] = limits["items"]
 mem.reduce_size(**kw)
-print(json.dumps([i for i in range(len(ages_h)) if os.path.isdir(entry_dir(i))]))
+kept = [i for i in range(len(ages_h)) if os.path.isdir(entry_dir(i))]
+if "orphan" in limits:
+    # the orphan's place in the LRU order is the file system's business (on a relatime mount the inventory's own directory listing
+    # refreshes the access time of a directory whose status just changed): report what the limits are about - how much is left
+    left = sum(os.path.getsize(os.path.join(entry_dir(i), n)) for i in kept for n in os.listdir(entry_dir(i)))
+    print(json.dumps({"entries_left": len(kept), "bytes_left": left}))
+else:
+    print(json.dumps(kept))
 '''
 
 
@@ -172,7 +190,9 @@ def e2e():
     import subprocess
     cases = 0
     ages = [5.0, 3.0, 2.0, 0.5, 0.17, 26.0]
-    scenarios = [({"age_h": 1}, [3, 4]), ({"age_h": 4}, [1, 2, 3, 4]), ({"age_h": 30}, [0, 1, 2, 3, 4, 5]), ({"items": 2}, [3, 4]), ({"items": 4, "age_h": 2.5}, [2, 3, 4])]
+    scenarios = [({"age_h": 1}, [3, 4]), ({"age_h": 4}, [1, 2, 3, 4]), ({"age_h": 30}, [0, 1, 2, 3, 4, 5]), ({"items": 2}, [3, 4]), ({"items": 4, "age_h": 2.5}, [2, 3, 4]),
+                 # entry 0 (second oldest after entry 5) is an orphan of 50 kB: it counts as an item and its bytes count
+                 ({"orphan": 0, "bytes": 20000}, "bytes_left <= 20000"), ({"orphan": 0, "items": 5}, "entries_left <= 5"), ({"orphan": 3, "items": 0}, "entries_left == 0")]
     for tz in ("UTC", "EST5", "JST-9", "Europe/Paris"):
         for limits, survivors in scenarios:
             cases += 1
@@ -181,6 +201,11 @@ def e2e():
             if pr.returncode != 0:
                 return {"violation": True, "cases": cases, "what": "reduce_size(%r) under TZ=%s raised: %s" % (limits, tz, pr.stderr.strip().splitlines()[-1:] or pr.stderr[-300:]), "witness": {"TZ": tz, "limits": limits}}
             got = json.loads(pr.stdout.strip().splitlines()[-1])
+            if isinstance(survivors, str):
+                if not eval(survivors, {}, got):
+                    return {"violation": True, "cases": cases, "what": "one entry directory holds a 50 kB temporary and no output.pkl (writer killed during its dump); after reduce_size(%r) the store holds %r: the limit %s is not met" % (
+                        {k: v for k, v in limits.items() if k != "orphan"}, got, survivors), "witness": {"TZ": tz, "limits": limits}}
+                continue
             if got != survivors:
                 return {"violation": True, "cases": cases, "what": "entries last used %r hours ago, reduce_size(%r) under TZ=%s kept %r, the limits keep exactly %r" % (ages, limits, tz, got, survivors),
                         "witness": {"TZ": tz, "limits": limits, "hours_since_last_access": ages}}
